@@ -177,6 +177,26 @@ def D_mmd(p, q, A):
     return math.sqrt(max(float(d @ A @ d), 0.0))
 
 
+def mmd_conditioning(P, A, ovo, eps=1e-12):
+    """smallest squared MMD distance the gradient divides by, relative to the size of the terms it is the difference of.
+    The MMD gradient contains pi_a*pi_b/delta_ab (one-vs-one) or 1/delta_k (one-vs-all) with delta = sqrt(difference of O(scale)
+    terms): when delta^2 is below ~1e-6*scale the rounding of that difference (1e-16*scale) changes the gradient by more than
+    the comparison tolerance, whatever the implementation — such points sit next to the zero distances where the score is not
+    differentiable (excluded by the property) and are counted, not compared."""
+    y = np.clip(P, eps, 1 - eps)
+    n, K = y.shape
+    pi, cond = y.mean(0), None
+    cond = (y / (n * pi)).T
+    quad = lambda d: float(d @ A @ d)
+    scale = max(1e-300, float(np.abs(A).max()) * max(float(np.abs(c).sum()) ** 2 for c in cond))
+    if ovo:
+        vals = [quad(cond[a] - cond[b]) for a in range(K) for b in range(a + 1, K)]
+    else:
+        u = np.full(n, 1.0 / n)
+        vals = [quad(cond[k] - u) for k in range(K)]
+    return (min(vals) if vals else scale) / scale
+
+
 def D_w1(p, q, A):
     """Wasserstein-1 by the transport LP, independent of POT"""
     from scipy.optimize import linprog
